@@ -179,11 +179,11 @@ Definition init (c : cfg) : listener :=
   else l0.
 
 (* ------------------------------------------------------------------ receive loop *)
-(* what json.loads returned, as far as `'SECoP' not in request or request['SECoP'] != 'discover'` can see it.
-   elem: Some s = a python str, None = any other value *)
+(* what json.loads returned, as far as `not isinstance(request, dict) or request.get('SECoP') != 'discover'`
+   can see it.  elem: Some s = a python str, None = any other value *)
 Definition elem := option str.
 Inductive parse :=
-| PBad                                   (* json.JSONDecodeError *)
+| PBad                                   (* json.JSONDecodeError (a ValueError) *)
 | PScalar                                (* None, bool, int, float *)
 | PStr (s : str)
 | PArr (es : list elem)
@@ -199,40 +199,35 @@ Fixpoint str_eqb (a b : str) : bool :=
   | _, _ => false
   end.
 
-(* needle in haystack (substring) *)
-Fixpoint contains (p s : str) : bool :=
-  starts_with p s || match s with [] => false | _ :: s' => contains p s' end.
-
 Definition elem_is (k : str) (e : elem) : bool :=
   match e with Some s => str_eqb k s | None => false end.
 
+(* dict.get *)
 Fixpoint lookup (k : str) (ms : list (str * elem)) : option elem :=
   match ms with
   | [] => None
   | (k', v) :: r => if str_eqb k k' then Some v else lookup k r
   end.
 
-Inductive exn := EUnicodeDecode | ETypeError.
-Inductive verdict := VKill (e : exn) | VIgnore | VAnswer.
+Inductive verdict := VIgnore | VAnswer.
 
-(* body of the while loop after recvfrom returned data *)
+(* body of the while loop after recvfrom returned data.  Nothing in it can raise: UnicodeDecodeError and
+   JSONDecodeError are ValueErrors and caught, isinstance and dict.get are total *)
 Definition handle (data : bytes) (p : parse) : verdict :=
   match utf8_decode (firstn recv_bufsize data) with
-  | None => VKill EUnicodeDecode                      (* not caught: only json.JSONDecodeError is *)
+  | None => VIgnore                                   (* except ValueError: continue *)
   | Some _ =>
     match p with
-    | PBad => VIgnore
-    | PScalar => VKill ETypeError                     (* 'SECoP' not in 5 *)
-    | PStr s => if contains K_SECoP s then VKill ETypeError else VIgnore   (* "..."['SECoP'] *)
-    | PArr es => if existsb (elem_is K_SECoP) es then VKill ETypeError else VIgnore
+    | PBad => VIgnore                                 (* except ValueError: continue *)
+    | PScalar | PStr _ | PArr _ => VIgnore            (* not isinstance(request, dict) *)
     | PObj ms => match lookup K_SECoP ms with
-                 | None => VIgnore
+                 | None => VIgnore                    (* None != 'discover' *)
                  | Some v => if elem_is K_discover v then VAnswer else VIgnore
                  end
     end
   end.
 
-Inductive status := Listening | Killed (e : exn) | Returned | NotListening.
+Inductive status := Listening | Returned | NotListening.
 Inductive dest := DBroadcast (port : N) | DAddr (a : nat).
 
 Record lstate := {
@@ -254,7 +249,6 @@ Definition lstep (l : listener) (s : lstate) (i : input) : lstate :=
     | IError => {| st := Returned; outs := outs s; consumed := S (consumed s) |}
     | IRecv data p a =>
       match handle data p with
-      | VKill e => {| st := Killed e; outs := outs s; consumed := S (consumed s) |}
       | VIgnore => {| st := Listening; outs := outs s; consumed := S (consumed s) |}
       | VAnswer => {| st := Listening; outs := outs s ++ answers l (DAddr a); consumed := S (consumed s) |}
       end
@@ -262,10 +256,10 @@ Definition lstep (l : listener) (s : lstate) (i : input) : lstate :=
   | _ => s
   end.
 
-(* run() up to the first recvfrom: the start-up broadcast is sent whether or not the responder is enabled *)
+(* run() up to the first recvfrom: the start-up broadcast only `if self.startup_broadcast and self.is_enabled` *)
 Definition start (l : listener) : lstate :=
   {| st := if l_enabled l then Listening else NotListening;
-     outs := if l_bcast l then answers l (DBroadcast UDP_PORT) else [];
+     outs := if l_bcast l && l_enabled l then answers l (DBroadcast UDP_PORT) else [];
      consumed := 0 |}.
 
 Definition run (l : listener) (ins : list input) : lstate := fold_left (lstep l) ins (start l).
